@@ -43,6 +43,11 @@ class DataLoader(torch.utils.data.DataLoader):
         else:
             self.tensor_frame: TensorFrame = dataset
 
+        if len(dataset) == 0 and kwargs.get('shuffle'):
+            # `torch.utils.data.RandomSampler` rejects empty data sources;
+            # there is nothing to shuffle, so an epoch yields no batches.
+            kwargs['shuffle'] = False
+
         super().__init__(
             range(len(dataset)),
             *args,
